@@ -620,9 +620,11 @@ void hist2()
   unsigned const steps{static_cast<unsigned>(verif_param("steps"))};
   apply(v, m, false, "op1", "a1", "b1", "v1");
   CHECK(v, m, "history step 1");
+  bool const op2_fixed{verif_param("op2") < 8}; // 8: the solver's choice
   for (unsigned k = 1; k < steps; ++k)
   {
-    apply(v, m, true, "op", "a", "b", "v");
+    if (k == 1 && op2_fixed) apply(v, m, false, "op2", "a2", "b2", "v2");
+    else apply(v, m, true, "op", "a", "b", "v");
     CHECK(v, m, "history later step");
   }
   verif_reach("hist2-end");
@@ -678,8 +680,8 @@ BOTH(dynarray, dynarray)
 //@harness h_compare_{T} for T in i32,u8 param cap=0..3 param n=0..3 param cap2=0..3 param n2=0..3 if (n<=cap)&(n2<=cap2)&((cap==n)|(cap==3))&((cap2==n2)|(cap2==3)) tier=quick leak=1
 //@harness h_construct_{T} for T in i32,u8 param how=0..4 tier=quick leak=1
 //@harness h_dynarray_{T} for T in i32,u8 tier=quick leak=1
-//@harness h_hist2_{T} for T in i32,u8 param n0=0..2 param steps=2 param op1=0..7 if (n0>0)|((op1!=1)&(op1!=4)) tier=quick leak=1 paths=60000
-//@harness h_hist2_{T} for T in i32 param n0=0 param steps=3 param op1=0..7 if (op1!=1)&(op1!=4) tier=quick leak=1 paths=60000
+//@harness h_hist2_{T} for T in i32,u8 param n0=0..2 param steps=2 param op1=0..7 param op2=8 if (n0>0)|((op1!=1)&(op1!=4)) tier=quick leak=1 paths=60000
+//@harness h_hist2_{T} for T in i32 param n0=0 param steps=3 param op1=0..7 param op2=8 if (op1!=1)&(op1!=4) tier=quick leak=1 paths=60000
 
 //@harness h_push_back_{T} for T in i32,u8 param cap=5..6 param n=0..6 if n<=cap tier=thorough leak=1
 //@harness h_pop_back_{T} for T in i32,u8 param cap=5..6 param n=1..6 if n<=cap tier=thorough leak=1
@@ -693,6 +695,6 @@ BOTH(dynarray, dynarray)
 //@harness h_reserve_{T} for T in i32,u8 param cap=5..6 param n=0..6 if n<=cap tier=thorough leak=1
 //@harness h_shrink_clear_{T} for T in i32,u8 param cap=5..6 param n=0..6 if n<=cap tier=thorough leak=1
 //@harness h_swap_move_{T} for T in i32,u8 param cap=5..6 param n=0..6 param s2=0..3 if n<=cap tier=thorough leak=1
-//@harness h_hist2_{T} for T in i32 param n0=1..2 param steps=3 param op1=0..7 tier=thorough leak=1 paths=60000
-//@harness h_hist2_{T} for T in u8 param n0=0..2 param steps=3 param op1=0..7 if (n0>0)|((op1!=1)&(op1!=4)) tier=thorough leak=1 paths=60000
-//@harness h_hist2_{T} for T in i32 param n0=0..2 param steps=4 param op1=0..7 if (n0>0)|((op1!=1)&(op1!=4)) tier=thorough leak=1 paths=400000 wall=1500
+//@harness h_hist2_{T} for T in i32 param n0=1..2 param steps=3 param op1=0..7 param op2=8 tier=thorough leak=1 paths=60000
+//@harness h_hist2_{T} for T in u8 param n0=0..2 param steps=3 param op1=0..7 param op2=8 if (n0>0)|((op1!=1)&(op1!=4)) tier=thorough leak=1 paths=60000
+//@harness h_hist2_{T} for T in i32 param n0=1 param steps=4 param op1=0..7 param op2=0..7 if ((op1!=1)&(op1!=4))|((op2!=1)&(op2!=4)) tier=thorough leak=1 paths=400000 wall=1500
